@@ -261,6 +261,10 @@ func (fr *Frame) writerCall(w *Val, b *Val) *Val {
 	if b != nil {
 		fr.st.ghost["$wbase"] = b.L[0]
 		fr.st.ghost["$wlen"] = b.L[1]
+		// $w0: the first byte handed to the writer (-1 for an empty buffer)
+		u8 := flatten(types.Typ[types.Uint8])[0]
+		rememberLeaf(u8)
+		fr.st.ghost["$w0"] = vc.define("g_w0", "Int", ite(lt("0", b.L[1]), "(bv2nat "+vc.read(fr.st, u8, b.L[0])+")", "(- 1)"))
 		vc.assume(and(le("0", n), le(n, b.L[1]), imp(lt(n, b.L[1]), neq(etag, "0"))))
 	}
 	fr.st.ghost["$wn"] = n
